@@ -123,6 +123,9 @@ func runC09Client(i int, cl c09Client, o gwOpts, tgt gwc.Target, from int) (err 
 	tag := []byte(fmt.Sprintf("client-%02d-%s|", i, sess.NewConnID()))
 	conn.Send(tsgu.Data(tag))
 	host := findHost(w.L["A"], from, tag, 10*time.Second)
+	if lg, ok := conn.(*gwc.Legacy); ok && host == nil && lg.SleepSync && len(conn.Units()) == 0 {
+		return "" // the harness could not tell when the gateway had consumed the preamble: the first chunk may have been discarded with it
+	}
 	if host == nil {
 		return fmt.Sprintf("client %d (%s): no backend connection carrying its tag after a valid set-up (%d units received)", i, cl.Kind, len(conn.Units()))
 	}
